@@ -51,7 +51,9 @@ class Check(PropertyCheck):
             opts["stroke-color"] = r.choice(STRS)
         if r.chance(1, 3):
             opts["scale"] = r.choice(["1", "0.5", "2", "1.25", "zz"])
-        mode = r.choice(["file", "stdin", "inline", "file", "missing"])
+        # "fifo": the file argument is a named pipe a writer fills; "devstdin": the file argument is /dev/stdin fed by a pipe
+        # (files that are not regular files: their metadata says size 0, they cannot be sought or mapped)
+        mode = r.choice(["file", "stdin", "inline", "file", "missing", "fifo", "devstdin"])
         out = r.choice([None, None, "file", "unwritable", "devfull"])
         text = gen.random_diagram(r, 16, 5).split("# Legend:")[0]
         if mode == "inline":
@@ -112,6 +114,14 @@ class Check(PropertyCheck):
             p = os.path.join(tmp, "in%d.bob" % idx)
             open(p, "w", encoding="utf-8").write(text)
             argv.append(p)
+        elif mode == "fifo":
+            p = os.path.join(tmp, "pipe%d.bob" % idx)
+            os.mkfifo(p)
+            fifo_path = p
+            argv.append(p)
+        elif mode == "devstdin":
+            argv.append("/dev/stdin")
+            stdin_data = text.encode("utf-8")
         elif mode == "missing":
             argv.append(os.path.join(tmp, "does_not_exist_%d.bob" % idx))
         elif mode == "inline":
@@ -129,7 +139,29 @@ class Check(PropertyCheck):
         elif out == "devfull":
             # opens fine, every write fails (a full disk)
             argv += ["-o", "/dev/full"]
+        writer = None
+        if mode == "fifo":
+            import threading
+
+            def feed(path=fifo_path, data=text.encode("utf-8")):
+                try:
+                    with open(path, "wb") as f:     # blocks until the tool opens the pipe for reading
+                        f.write(data)
+                except OSError:
+                    pass
+            writer = threading.Thread(target=feed, daemon=True)
+            writer.start()
         pr = subprocess.run(argv, input=stdin_data if stdin_data is not None else b"", capture_output=True, timeout=60)
+        if writer is not None:
+            writer.join(0.5)
+            if writer.is_alive():
+                # the tool ended without opening the pipe (an option was rejected first): release the writer
+                try:
+                    fd = os.open(fifo_path, os.O_RDONLY | os.O_NONBLOCK)
+                    writer.join(2)
+                    os.close(fd)
+                except OSError:
+                    pass
         return argv, pr, outp, effective
 
     def cases_and_results(self, n):
@@ -162,6 +194,8 @@ class Check(PropertyCheck):
             self.evaluations += 1
             opts, mode, out, text = c
             case = {"argv": argv[1:], "mode": mode, "input": text, "input_hex": hx(text)}
+            if mode in ("fifo", "devstdin"):
+                mode = "file"       # for the property and for the model: a file argument whose content is `text`
             legal = self.settings_of(opts) is not None
             should_succeed = legal and mode != "missing" and out not in ("unwritable", "devfull") and libans is not None and libans.startswith("ok ")
             if should_succeed and opts:
